@@ -19,6 +19,7 @@ EXTENDS Ref, TLC, Json, IOUtils
 Defs   == ndJsonDeserialize(IOEnv.DEFS)
 MaxLen == atoi(IOEnv.MAXLEN)
 MaxOps == atoi(IOEnv.MAXOPS)
+Fresh  == IOEnv.FRESH = "1"       \* lexers over a second buffer take part (the operations f and k)
 
 VARIABLES d,       \* index of definition A of the pair (B = Defs[d].twin)
           phase, chars, partial,
@@ -36,10 +37,16 @@ RECURSIVE FlatOf(_, _)
 FlatOf(DD, cs) == IF cs = <<>> THEN <<>> ELSE DD.chars[Head(cs)] \o FlatOf(DD, Tail(cs))
 
 DefOf(k) == IF k = "A" THEN DA ELSE DB
-SrcOf(k) == FlatOf(DefOf(k), chars)
+(* Two source buffers: buffer 1 holds the input, buffer 2 the same characters rotated by one (same length, other      *)
+(* content and, for str, other char boundaries).  Every lexer reads the buffer it was created over (or cloned from):  *)
+(* clone, clone_from, morph and spanned carry the SOURCE along with the position.                                      *)
+Rot(cs) == IF cs = <<>> THEN <<>> ELSE Tail(cs) \o <<Head(cs)>>
+CharsOf(b) == IF b = 2 THEN Rot(chars) ELSE chars
+SrcOfB(k, b) == FlatOf(DefOf(k), CharsOf(b))
+SrcOf(k) == SrcOfB(k, 1)
 SrcLen   == Len(SrcOf("A"))
 
-Empty == [k |-> "-", sp |-> FALSE, start |-> 0, end |-> 0, extras |-> 0]
+Empty == [k |-> "-", sp |-> FALSE, start |-> 0, end |-> 0, extras |-> 0, buf |-> 1]
 
 Init == /\ d \in Sel
         /\ phase = "build" /\ chars = <<>> /\ partial \in BOOLEAN
@@ -59,7 +66,7 @@ Str(n) == ToString(n)
 (* ---- the operations: each yields [op, res, slot'] ---- *)
 NextOp(i) ==
   LET s == slots[i]
-      a == TLCEval(RefNext(DefOf(s.k), SrcOf(s.k), partial, s.end))
+      a == TLCEval(RefNext(DefOf(s.k), SrcOfB(s.k, s.buf), partial, s.end))
       item == IF a.k = "tok" THEN <<"ok", DefOf(s.k).vname[a.leaf], a.start, a.end>>
               ELSE IF a.k = "err" THEN <<"err", "", a.start, a.end>> ELSE <<"none", "", a.start, a.end>>
   IN [op |-> "n" \o Str(i - 1), res |-> item,
@@ -70,7 +77,7 @@ Huge == {1000001, 1000002}                    \* stand for usize::MAX - 1 and us
 BumpArgs(i) == 0..(SrcLen - slots[i].end + 2) \cup Huge
 BumpValid(i, n) == /\ n \notin Huge
                    /\ slots[i].end + n <= SrcLen
-                   /\ IsBoundary(DA, SrcOf("A"), slots[i].end + n)
+                   /\ IsBoundary(DA, SrcOfB("A", slots[i].buf), slots[i].end + n)
 ArgStr(n) == IF n = 1000001 THEN "MAX-1" ELSE IF n = 1000002 THEN "MAX-0" ELSE Str(n)
 BumpOp(i, n) ==
   [op |-> "b" \o Str(i - 1) \o ":" \o ArgStr(n),
@@ -87,7 +94,15 @@ SpannedOp(i) ==
 CloneOp(i) ==
   [op |-> "c" \o Str(i - 1) \o ":" \o Str(Other(i) - 1), res |-> <<"ok", "", 0, 0>>, slot |-> slots[i]]
 
-Obs(ss) == [j \in 1..2 |-> <<ss[j].k, ss[j].sp, ss[j].start, ss[j].end, ss[j].extras>>]
+(* a fresh lexer of type A over buffer 2 (Lexer::new / new_partial), replacing whatever the slot held *)
+FreshOp(i) ==
+  [op |-> "f" \o Str(i - 1), res |-> <<"ok", "", 0, 0>>, slot |-> [Empty EXCEPT !.k = "A", !.buf = 2]]
+
+(* Clone::clone_from: slot j becomes a copy of slot i, like `slots[j] = slots[i].clone()` *)
+CloneFromOp(i) ==
+  [op |-> "k" \o Str(i - 1) \o ":" \o Str(Other(i) - 1), res |-> <<"ok", "", 0, 0>>, slot |-> slots[i]]
+
+Obs(ss) == [j \in 1..2 |-> <<ss[j].k, ss[j].sp, ss[j].start, ss[j].end, ss[j].extras, ss[j].buf>>]
 
 (* all operations enabled in this state, each with the slots after it *)
 Enabled ==
@@ -98,7 +113,10 @@ Enabled ==
          \cup (IF slots[i].sp THEN {} ELSE {[o |-> MorphOp(i), after |-> [slots EXCEPT ![i] = MorphOp(i).slot]],
                                             [o |-> SpannedOp(i), after |-> [slots EXCEPT ![i] = SpannedOp(i).slot]]})
          \cup {[o |-> CloneOp(i), after |-> [slots EXCEPT ![Other(i)] = slots[i]]]}
+         \cup (IF Live(Other(i)) /\ slots[Other(i)].k = slots[i].k /\ slots[Other(i)].sp = slots[i].sp /\ slots[Other(i)] # slots[i]
+               THEN {[o |-> CloneFromOp(i), after |-> [slots EXCEPT ![Other(i)] = slots[i]]]} ELSE {})
     : i \in 1..2}
+  \cup (IF Fresh /\ chars # <<>> THEN {[o |-> FreshOp(2), after |-> [slots EXCEPT ![2] = FreshOp(2).slot]]} ELSE {})
 
 Do == /\ phase = "run" /\ Len(hist) < MaxOps
       /\ \E e \in Enabled :
@@ -114,7 +132,7 @@ Spec == Init /\ [][Next]_vars
 (* ordered, and (str) on char boundaries.                                                   *)
 SpanInv == \A i \in 1..2 : Live(i) =>
              /\ slots[i].start <= slots[i].end /\ slots[i].end <= SrcLen
-             /\ IsBoundary(DA, SrcOf("A"), slots[i].start) /\ IsBoundary(DA, SrcOf("A"), slots[i].end)
+             /\ IsBoundary(DA, SrcOfB("A", slots[i].buf), slots[i].start) /\ IsBoundary(DA, SrcOfB("A", slots[i].buf), slots[i].end)
 
 ReplayRec == [d |-> d, chars |-> chars, partial |-> partial, hist |-> hist, obs |-> Obs(slots),
               ops |-> {<<e.o.op, e.o.res, Obs(e.after)>> : e \in Enabled}]
